@@ -31,6 +31,7 @@ type inlineInfo struct {
 	calls   map[*ast.CallExpr]bool // call sites that were expanded
 	funcs   map[*FuncInfo]bool     // callees that were expanded
 	returns []Exit                 // the return statements of expanded callees (they continue in the caller)
+	bound   map[ast.Node]bool      // assignment nodes whose values were bound at the callee's returns (no kill)
 }
 
 // ExitsInl: the exits of the graph plus, for an inlined graph, the returns of the expanded helpers (the points where
@@ -54,7 +55,7 @@ func (p *Program) GraphOfInl(fi *FuncInfo) *Graph {
 	}
 	info := fi.Pkg.TypesInfo
 	g := &Graph{P: p, Info: info, Fn: fi.Decl, Body: fi.Decl.Body, Name: fi.Name + "+helpers", nodeAt: map[ast.Node]nodeLoc{}, live: map[*cfg.Block]bool{}, Fi: fi,
-		nodeAll: map[ast.Node][]nodeLoc{}, inl: &inlineInfo{calls: map[*ast.CallExpr]bool{}, funcs: map[*FuncInfo]bool{}}}
+		nodeAll: map[ast.Node][]nodeLoc{}, inl: &inlineInfo{calls: map[*ast.CallExpr]bool{}, funcs: map[*FuncInfo]bool{}, bound: map[ast.Node]bool{}}}
 	base := cfg.New(fi.Decl.Body, p.mayReturn(info))
 	blocks := cloneBlocks(base.Blocks)
 	type work struct {
@@ -106,6 +107,31 @@ func (p *Program) GraphOfInl(fi *FuncInfo) *Graph {
 			}
 			// continuation: the node containing the call and everything after it, with b's successors
 			k := &cfg.Block{Nodes: append([]ast.Node{}, b.Nodes[i:]...), Succs: b.Succs, Kind: b.Kind, Stmt: b.Stmt}
+			// `x, err := helper(...)`: the values returned are bound at each return of the helper; when the
+			// continuation branches (typically on err), it is copied per return so that each copy knows its value
+			var bindLhs []ast.Expr
+			if as, isAs := n.(*ast.AssignStmt); isAs && len(as.Rhs) == 1 && ast.Unparen(as.Rhs[0]) == ast.Expr(call) {
+				allIdents := true
+				for _, l := range as.Lhs {
+					if _, isId := l.(*ast.Ident); !isId {
+						allIdents = false
+					}
+				}
+				if allIdents {
+					bindLhs = as.Lhs
+					g.inl.bound[n] = true
+				}
+			}
+			perReturn := bindLhs != nil && len(k.Succs) == 2
+			var kCopies []*cfg.Block
+			contFor := func() *cfg.Block {
+				if !perReturn {
+					return k
+				}
+				kc := &cfg.Block{Nodes: append([]ast.Node{}, k.Nodes...), Succs: k.Succs, Kind: k.Kind, Stmt: k.Stmt}
+				kCopies = append(kCopies, kc)
+				return kc
+			}
 			// the part before: falls into the callee
 			b.Nodes = append(append([]ast.Node{}, b.Nodes[:i]...), p.bindings(info, callee, call)...)
 			// clone the callee's blocks per set of defer statements already executed (a defer inside a branch runs
@@ -137,6 +163,9 @@ func (p *Program) GraphOfInl(fi *FuncInfo) *Graph {
 					nb.Nodes = append(nb.Nodes, cn)
 				}
 				if len(ob.Succs) == 0 {
+					if ob.Kind == cfg.KindSelectAfterCase && len(ob.Nodes) == 0 {
+						return nb // the tail of a select without default: blocks forever, not a way out
+					}
 					if !p.endsInNoReturn(callee.Pkg.TypesInfo, ob) {
 						if len(ob.Nodes) > 0 {
 							if rs, isR := ob.Nodes[len(ob.Nodes)-1].(*ast.ReturnStmt); isR && isTail {
@@ -148,7 +177,12 @@ func (p *Program) GraphOfInl(fi *FuncInfo) *Graph {
 								nb.Nodes = append(nb.Nodes, &ast.ExprStmt{X: defers[j].Call})
 							}
 						}
-						nb.Succs = []*cfg.Block{k}
+						if bindLhs != nil && len(ob.Nodes) > 0 {
+							if rs, isR := ob.Nodes[len(ob.Nodes)-1].(*ast.ReturnStmt); isR {
+								nb.Nodes = append(nb.Nodes, p.resultBindings(callee, rs, bindLhs, n.(*ast.AssignStmt))...)
+							}
+						}
+						nb.Succs = []*cfg.Block{contFor()}
 					}
 					return nb
 				}
@@ -160,12 +194,22 @@ func (p *Program) GraphOfInl(fi *FuncInfo) *Graph {
 			entry := build(cb.Blocks[0], 0)
 			b.Succs = []*cfg.Block{entry}
 			blocks = append(blocks, cl...)
-			blocks = append(blocks, k)
+			if perReturn && len(kCopies) > 0 {
+				blocks = append(blocks, kCopies...)
+			} else {
+				blocks = append(blocks, k)
+			}
 			stack2 := append(append([]*FuncInfo{}, w.stack...), callee)
 			for _, c := range cl {
 				queue = append(queue, work{c, stack2, 0, isTail})
 			}
-			queue = append(queue, work{k, w.stack, 1, w.tail})
+			if perReturn && len(kCopies) > 0 {
+				for _, kc := range kCopies {
+					queue = append(queue, work{kc, w.stack, 1, w.tail})
+				}
+			} else {
+				queue = append(queue, work{k, w.stack, 1, w.tail})
+			}
 			break
 		}
 	}
@@ -351,4 +395,38 @@ func (g *Graph) unitOf(n ast.Node) *FuncInfo {
 		}
 	}
 	return g.Fi
+}
+
+// resultBindings: synthetic assignments `lhs_i = result_i` for a return statement of callee whose values the call
+// site assigns to identifiers (named results for a bare return).
+func (p *Program) resultBindings(callee *FuncInfo, rs *ast.ReturnStmt, lhs []ast.Expr, site *ast.AssignStmt) []ast.Node {
+	cinfo := callee.Pkg.TypesInfo
+	results := rs.Results
+	if len(results) == 0 && callee.Decl.Type.Results != nil {
+		for _, f := range callee.Decl.Type.Results.List {
+			for _, nm := range f.Names {
+				results = append(results, nm)
+			}
+		}
+	}
+	if len(results) != len(lhs) {
+		return nil
+	}
+	var out []ast.Node
+	for i, l := range lhs {
+		id := l.(*ast.Ident)
+		if id.Name == "_" {
+			continue
+		}
+		obj := cinfo.Defs[id]
+		if obj == nil {
+			obj = cinfo.Uses[id]
+		}
+		nl := &ast.Ident{Name: id.Name, NamePos: rs.Pos()}
+		if obj != nil {
+			cinfo.Uses[nl] = obj
+		}
+		out = append(out, &ast.AssignStmt{Lhs: []ast.Expr{nl}, Tok: token.ASSIGN, TokPos: rs.Pos(), Rhs: []ast.Expr{results[i]}})
+	}
+	return out
 }
